@@ -377,8 +377,8 @@ func (x *Exec) bankOp(st *State, ci *callInfo, a []Val, k func(*State, Val), app
 		pre = And(pre, p)
 	}
 	st.assume(pre, "bank operation succeeded => sufficient funds")
-	k(st, &ErrV{IsNil: TTrue})
-	k(es, &ErrV{IsNil: TFalse})
+	x.tryPath(func() { k(st, &ErrV{IsNil: TTrue}) })
+	x.tryPath(func() { k(es, &ErrV{IsNil: TFalse}) })
 }
 
 func (x *Exec) iterBounds(st *State, a []Val) {
